@@ -40,6 +40,7 @@ var (
 	at      int
 	failed  []string
 	traceLn []string
+	covered = map[string]bool{}
 )
 
 func load() {
@@ -143,7 +144,14 @@ func Assert(c bool, label string) {
 		fmt.Println("VERIF-ASSERT-FAILED " + label)
 	}
 }
-func Cover(c bool, label string) {}
+func Cover(c bool, label string) {
+	if c {
+		covered[label] = true
+	}
+}
+
+// Covered reports the cover labels satisfied natively so far (cumulative).
+func Covered() map[string]bool { return covered }
 func Reach(label string)         {}
 
 func And(a, b bool) bool     { return a && b }
